@@ -14,9 +14,10 @@ EXPLANATION = ('(R01.1) in every stacked-cache entry point every content write (
                'the crate; (R01.2) the only primitives whose created path is (directory + key) are rename and hard_link, with the '
                'caller\'s source as their source; (R01.3) for each temp file the stacked cache creates and inserts, the Ok outcome '
                'of its content write dominates the insert and no content write on it is reachable after the insert; (R01.4) the '
-               'source handle of a copy into such a file is at offset 0 on every path (rewound after any consumer). Atomicity of '
+               'source handle of a copy into such a file is at offset 0 on every path (rewound after any consumer); (R01.5) such a file '
+               'is written by exactly one writer (no second copy/callback into it without a truncate in between). Atomicity of '
                'rename/link/open is POSIX, trusted; interleavings are not enumerated.')
-FLOORS = {'R01.1': 8, 'R01.2': 4, 'R01.3': 6, 'R01.4': 2}
+FLOORS = {'R01.1': 8, 'R01.2': 4, 'R01.3': 6, 'R01.4': 2, 'R01.5': 2}
 FIXTURE_RULES = ['R01.1']
 
 INPLACE = {'open_rw', 'truncate', 'ns_create_file'}
@@ -145,9 +146,44 @@ def r01_4(ctx):
     return out
 
 
+def r01_5(ctx):
+    """the file handed to the write cache holds the output of exactly one writer: once the populate callback or a copy
+    has written into a temporary file, no second writer (another copy, another callback) writes into the same file
+    unless it was truncated in between.  A recycled scratch file would publish one value overlaid on another."""
+    out = []
+    ins = ctx.insert_methods()
+    wt = ctx.role('write_trait')
+    for name, k in stack_entries(ctx):
+        q = ctx.explore(k, mode='layer')
+        B = q.edges(lambda ev: ev['k'] == 'traitcall' and ev['trait'] == wt and ins.get(ev['method']) in ('set', 'put'))
+        roots = sorted({obj_root(q.E[b][2]['args'][2]) for b in B if is_temp_object(obj_root(q.E[b][2]['args'][2]))})
+        bad = []
+        nw = 0
+        for root in roots:
+            def wpred(ev):
+                if ev['k'] == 'ext' and cls_of(ev) == 'content_write':
+                    return obj_root(arg_role(ev, 'handle')) == root
+                if ev['k'] == 'usercb' and callback_kind(ctx, q, ev) == 'populate':
+                    return bool(ev['args']) and obj_root(ev['args'][0]) == root
+                return False
+            W = q.edges(wpred)
+            nw += len(W)
+            trunc = [e for e in q.prim_edges('truncate') if obj_root(arg_role(q.E[e][2], 'handle')) == root]
+            # a successful truncate between the two writers makes the second one start from an empty file
+            bad += q.never_after(W, W, blocked=outcomes(q, trunc, 'Ok'))
+        if not roots:
+            continue
+        out.append(inst('R01.5', '%s|single writer per published file' % name, not bad,
+                        'each inserted temporary file is written by exactly one writer on every path (%d files, %d write sites)' % (len(roots), nw) if not bad else
+                        'a temporary file that is later inserted is written by %s after %s already wrote into it, without a truncate: '
+                        'the published value can be one value overlaid on another' % (q.E[bad[0][1]][2].get('path', 'a callback'), q.E[bad[0][0]][2].get('path', 'a callback')),
+                        path=witness_path(q, bad[0][1]) if bad else []))
+    return out
+
+
 def run(ctx):
     from runner import collect
-    return collect(ctx, r01_1, r01_2, r01_3, r01_4)
+    return collect(ctx, r01_1, r01_2, r01_3, r01_4, r01_5)
 
 
 def run_fixture(fctx):
